@@ -91,14 +91,15 @@ def classify(tok):
         if w is None:
             raise Unsupported(f"register class {cls}")
         if dbl:
+            if cls == "N":
+                return None  # new-value operands are single registers
             w *= 2
         acc = "src" if let in SRC_LETTERS else "dst" if let in DST_LETTERS else "rw" if let in RW_LETTERS else None
-        if acc is None:
-            return None
-        if dbl and ((acc == "src" and let == "w") or (acc == "dst" and let == "e") or (acc == "rw" and let == "z")):
-            return None  # no such pair letters in the operand syntax
-        ident = ("nreg", let) if cls == "N" else ("isa", let)
-        return dict(kind="reg", ident=ident, width=w, signed=True, new=(suffix == "N"), acc=acc, cls=cls)
+        if acc is not None:
+            if dbl and ((acc == "src" and let == "w") or (acc == "dst" and let == "e") or (acc == "rw" and let == "z")):
+                return None  # no such pair letters in the operand syntax
+            ident = ("nreg", let) if cls == "N" else ("isa", let)
+            return dict(kind="reg", ident=ident, width=w, signed=True, new=(suffix == "N"), acc=acc, cls=cls)
     m = RE_ALIAS.match(tok)
     if m:
         name = m.group(1)
